@@ -8,7 +8,8 @@
    Neither hypothesis can be dropped for all programs: mapping projections put struct members at offsets >= 256 of a NESTED
    type (outside tstate_in 256, harmless for the rows: abi_rows_in_slot), and the packed-encoding rule states no width for a
    span's variable (room_ok).  The C12 check decides both per run on the implementation's dumped classes. *)
-From SLX Require Import Base gen.Constants TypeExpr Merge Unify Register AbiT Layout Abi Pipeline.
+From Coq Require Import String.
+From SLX Require Import Base gen.Constants SymVal Disasm VM TypeExpr Merge Unify Register AbiT Layout Abi Pipeline.
 From SLX.proofs Require Import UnifyInSlot PipelineInSlot.
 Open Scope N_scope.
 
@@ -26,5 +27,27 @@ Theorem layout_rows_come_from_abi : forall nested_add fit env fuel vals layout L
                     abi_type_for nested_add fit env fuel (tv_of v) = Ok a /\ In x (rows_of index a).
 Proof. exact build_layout_rows. Qed.
 
+(* both hypotheses are decidable on a concrete run (room_okb is room_ok decided over the allocated variables) ... *)
+Theorem room_ok_decidable : forall s n, room_okb s n = true -> room_ok (env_of_forest s n).
+Proof. exact room_okb_sound. Qed.
+
+(* ... and satisfiable: `sstore(0, caller); sstore(1, sload(0) & (2^160 - 1))` -- the judgement set the run infers lies inside the
+   slot, the classes unify leaves have room, and the layout has the two rows the theorem speaks about *)
+Example pipeline_rows_in_slot_hyps_met :
+  let p := [51;95;85;115;255;255;255;255;255;255;255;255;255;255;255;255;255;255;255;255;255;255;255;255;95;84;22;96;1;85;0] in
+  let tr := analyze_trace (fun _ => 0) [] MSorted default_fuels p (mk_config 30000000 10 50 250 394 false 100 None) in
+  t_result tr = PLayout [(0, 0, AT "Address" [] []); (1, 0, AT "Address" [] [])] /\
+  match t_infs tr with
+  | Some (nx, inf) =>
+      tstate_in 256 (mk_tstate inf nx) = true /\
+      match unify (f_rounds default_fuels) (orders_of MSorted) (mk_tstate inf nx) with
+      | Ok (s, n) => room_okb s n = true
+      | _ => False
+      end
+  | None => False
+  end.
+Proof. vm_compute. repeat split; reflexivity. Qed.
+
 Print Assumptions pipeline_rows_in_slot.
+Print Assumptions room_ok_decidable.
 Print Assumptions layout_rows_come_from_abi.
